@@ -222,6 +222,11 @@ def thm_table():
 # can matter is where dots sit and whether the stem ends in characters of a format name.  The round trip is proved per
 # stem for this family (names are NOT universally quantified: chunked strings have a fixed shape).
 STEMS = ["a.b.c.nc", "backup", "quiz", "wiki", "v1.", "gz", "x.zip", ".hidden", "b2", "archive.x", "z"]
+import os as _os2
+if _os2.environ.get("VERIF_TIER_EFFECTIVE", "quick") == "thorough":
+    # thorough: every stem of the form <body><tail> with the tail drawn from the characters of the format names and dots
+    STEMS = STEMS + sorted({b + t_ for b in ("data", "f.nc", "x") for t_ in ("", ".", "..", "z", "p", "i", "g", "x", "b", "2", ".z", "ip", "zip", ".gz", "bz", "xz.", "2.")}
+                           - set(STEMS))
 
 
 def _roundtrip(fmt, via_suffix, stem):
